@@ -56,7 +56,7 @@ chk("C09", ALG + " Vector results are compared component-wise with the Array ope
     "falling back to nlsat).",
     TRUST + " Lifting is relative to the Array layer (C02/C07).",
     "symbolic execution of Vector operators, norm, dot, cross; SMT (LRA via sound monomial abstraction, NRA fallback)", "DESIGN.md section 5")
-chk("C10", ALG + " The catalogue of ~50 numpy functions is fixed in harness/c10.py; the oracle applies the same function to the operands "
+chk("C10", ALG + " The catalogue of ~63 numpy functions is fixed in harness/c10.py; the oracle applies the same function to the operands "
     "expressed in CGS and checks the dimensional rule of the function's class.",
     TRUST + " Functions outside the catalogue are not claimed. Known finding: plain numbers/ndarrays mixed with dimensional Arrays.",
     "symbolic execution of Array._wrap_numpy through the numpy protocols; SMT validity of physical equality + dimensional rule", "DESIGN.md section 5")
